@@ -309,12 +309,14 @@ type run struct {
 	uc  *simnet.UDPConn
 	res *core.Result
 
-	onUDPSock bool
-	viaListen bool  // the real start goes through ListenAndServe
-	listenErr error // what the next listen attempt is answered with
-	listens   int
-	stuckIn   string // set while a call that must not block is in progress
-	trialOver bool   // the start that cannot succeed, and the Shutdown that follows it, are over
+	onUDPSock    bool
+	viaListen    bool  // the real start goes through ListenAndServe
+	listenErr    error // what the next listen attempt is answered with
+	listens      int
+	inTrial      bool               // a start that is expected to fail is in progress
+	trialSockets []*simnet.Listener // listeners handed to start attempts that were expected to fail
+	stuckIn      string             // set while a call that must not block is in progress
+	trialOver    bool               // the start that cannot succeed, and the Shutdown that follows it, are over
 
 	ops        map[string]*opState
 	opList     []*opState
@@ -450,16 +452,23 @@ func (x *run) listenTCP(network, addr string, reuseport, reuseaddr bool) (net.Li
 	x.k.Lock()
 	x.listens++
 	err := x.listenErr
-	if want := x.sc.ReuseOpts; err == nil && (reuseport != (want&1 != 0) || reuseaddr != (want&2 != 0)) {
+	if want := x.sc.ReuseOpts; err == nil && x.viaListen && (reuseport != (want&1 != 0) || reuseaddr != (want&2 != 0)) {
 		x.res.Fail("S5", "listen-options", "ListenAndServe asked for a socket with reuseport=%v reuseaddr=%v, the server was configured with ReusePort=%v ReuseAddr=%v", reuseport, reuseaddr, want&1 != 0, want&2 != 0)
 	}
-	if err == nil && x.l == nil {
-		err = errors.New("listen: no stream socket in this scenario")
-	}
+	trial := x.inTrial || !x.viaListen || x.l == nil
 	x.k.EffectLocked("listen " + network + " " + addr + " " + common.ErrStr(err))
 	x.k.Unlock()
 	if err != nil {
 		return nil, err
+	}
+	if trial {
+		// a listen call outside the start under test (a start that is expected to fail before it
+		// gets this far): it gets a socket of its own, which it must not leave open when it fails
+		l := x.n.Listen()
+		x.k.Lock()
+		x.trialSockets = append(x.trialSockets, l)
+		x.k.Unlock()
+		return l, nil
 	}
 	return x.listener(), nil
 }
@@ -504,6 +513,7 @@ func (s *serveTask) RunEvent(time.Time) {
 	if s.c.name == "start-1" && x.sc.FailStart != "" && !x.sc.Start2 && !x.sc.Early {
 		// a start that cannot succeed must leave the server stopped
 		var err error
+		x.inTrial = true
 		if x.sc.FailStart == "noreader" {
 			// a generic PacketConn with a decorated reader that cannot read from one:
 			// the serve call gives up at once (on a socket of its own, which it closes)
@@ -546,10 +556,17 @@ func (s *serveTask) RunEvent(time.Time) {
 			err = x.srv.ListenAndServe()
 			x.srv.Net, x.srv.TLSConfig = keepNet, keepTLS
 		}
+		x.inTrial = false
 		k.Lock()
 		x.res.Stats["oracle.S5_failed_start"]++
 		if err == nil {
 			x.res.Fail("S5", "impossible-start-succeeded", "a start that cannot succeed (%s) returned nil", x.sc.FailStart)
+		}
+		for _, l := range x.trialSockets {
+			x.res.Stats["oracle.S7_failed_start_closes_its_socket"]++
+			if !l.IsClosed() {
+				x.res.Fail("S7", "socket-leaked-by-failed-start", "a start that failed (%s: %v) had opened a listening socket and left it open", x.sc.FailStart, err)
+			}
 		}
 		k.Unlock()
 		x.stuckIn = fmt.Sprintf("Shutdown after a start that failed (%s: %v)", x.sc.FailStart, err)
@@ -956,8 +973,11 @@ func runIn(sc *Scenario, res *core.Result, verbose bool) {
 	}
 	// ListenAndServe needs the socket seam; for udp it insists on a UDP socket
 	x.viaListen = sc.Listen && common.ListenSeam() && (sc.Transport != "udp" || (sc.UDPSock && common.UDPSeam))
-	if x.viaListen {
+	if common.ListenSeam() {
+		// whatever start path asks for a socket, it gets a simulated one
 		defer common.InstallSockets(&common.Sockets{ListenTCP: x.listenTCP, ListenUDP: x.listenUDP})()
+	}
+	if x.viaListen {
 		srv.Addr = "10.0.0.1:53"
 		srv.ReusePort, srv.ReuseAddr = sc.ReuseOpts&1 != 0, sc.ReuseOpts&2 != 0
 		res.Bump("cover.started_with_ListenAndServe")
